@@ -114,6 +114,21 @@ class PM:
             return False
         if type(pat) is not type(tgt):
             return False
+        if isinstance(pat, ast.BoolOp) and type(pat.op) is type(tgt.op) and len(pat.values) == len(tgt.values) and 2 <= len(pat.values) <= 6:
+            # and / or of call-free operands: the operands may be written in any order (same value, nothing to observe)
+            e2 = dict(env)
+            if all(self._m(a, b, e2) for a, b in zip(pat.values, tgt.values)):
+                env.clear(); env.update(e2)
+                return True
+            if all(not any(isinstance(x, (ast.Call, ast.Await, ast.NamedExpr)) for x in ast.walk(v)) for v in tgt.values):
+                import itertools
+
+                for perm in itertools.permutations(range(len(tgt.values))):
+                    e2 = dict(env)
+                    if all(self._m(a, tgt.values[i], e2) for a, i in zip(pat.values, perm)):
+                        env.clear(); env.update(e2)
+                        return True
+            return False
         if isinstance(pat, ast.If) and (pat.orelse or tgt.orelse):
             # `if not c: B else: A` is `if c: A else: B`: compare both in the form whose test is not a negation
             pt, pb, po = _canon_if(pat)
